@@ -348,6 +348,14 @@ class SyncInterpreter(BaseInterpreter[TContext, TEvent]):
         limit = getattr(self.machine, "max_iterations", 1000)
         try:
             while self._event_queue:
+                # 🏁 The machine may complete, fail or be stopped by the event
+                #    just processed. Whatever is still queued (events raised
+                #    earlier in the same macrostep, a pending `done.state`)
+                #    must not run user code on a finished machine — the async
+                #    engine's run loop stops at the same point.
+                if self.status != "running":
+                    self._event_queue.clear()
+                    break
                 processed += 1
                 if processed > limit:
                     logger.error(
